@@ -35,8 +35,8 @@ CHECKS = {
             "DESIGN.md §3 C05"),
     "C06": ("S", "model_checking",
             "stateless schedule exploration (CHESS-style token-passing scheduler over OS threads, DFS over choice sequences) of the real emitters racing the real SSE handlers through the production router",
-            "For the session, task and thread streams (thread with the sidecar present and deleted) every interleaving of the producer's lock/publish/record steps with one subscriber's subscribe / snapshot steps is executed with no preemption bound (two subscribers: preemption bound 2 in quick for sessions, all kinds in thorough; two emitters of one task + one subscriber: bound 2 / 3); each execution runs the real run_session / TaskEmitter::emit / append_message against the real GET .../events handler, and the frames the subscriber's body yields must be exactly the stream's frames in the log, once, in seq order.",
-            "Scheduling granularity = hook points; body polling order is not explored (the broadcast receiver buffers everything after subscribe; lag beyond the 16384-frame capacity is outside the quantifier); 3-4 frames per stream; replay determinism is asserted; a log append that fails (I/O error) is in no alphabet.",
+            "For the session, task and thread streams (thread with the sidecar present and deleted) every interleaving of the producer's lock/publish/record steps with one subscriber's subscribe / snapshot steps is executed with no preemption bound (two subscribers: preemption bound 2 in quick for sessions, all kinds in thorough; two emitters of one task + one subscriber: bound 2 / 3; a session and a task whose second log append fails (fault-injection seam), with a subscriber attached before production and a late one that must receive the same frames); each execution runs the real run_session / TaskEmitter::emit / append_message against the real GET .../events handler, and the frames the subscriber's body yields must be exactly the stream's frames in the log, once, in seq order.",
+            "Scheduling granularity = hook points; body polling order is not explored (the broadcast receiver buffers everything after subscribe; lag beyond the 16384-frame capacity is outside the quantifier); 3-4 frames per stream; replay determinism is asserted; the only I/O error injected is a failing log append.",
             "DESIGN.md §3 C06"),
     "C07": ("P", "exploration",
             "bounded exhaustive enumeration of provider scripts x input kinds x parallel-run pairs through the production router against an in-process scripted provider; lifecycle grammar evaluated on the log",
